@@ -613,6 +613,10 @@ func (c19) Exec(c Case) [][][]string {
 	if !s.expect("cons") {
 		return fail("stuck-start")
 	}
+	if eff := r.st.VerifBlockingTimeout(); eff != perf.OverflowConfig.BlockTimeout {
+		// the option did not arrive as configured (e.g. "no timeout" silently replaced by a default)
+		return fail("cfg-not-in-effect")
+	}
 	r.cons.aux = r.st.VerifDataChan()
 	r.ssql.AddSyncSink(func(res []map[string]interface{}) {
 		r.sinkMu.Lock()
